@@ -409,6 +409,16 @@ def run(prog, rep, tier):
             n16 += len(ks_)
             for k_ in ks_[:6]:
                 rep.examined(R16, "%s|%s" % (rid_, k_), sample={"rule": rid_, "instance": k_})
+    # journal entries: the instant each renderer stores is the receive time (C09 R9.11)
+    import c09 as _c09
+    sub9_ = _Rep1("C09", "quick", dict(rep.meta))
+    r9_ = sub9_.rule("R9.11", "lift")
+    _c09.r911(prog, sub9_, r9_)
+    for (rid_, key_, what_, det_) in sub9_.violations:
+        rep.violation(R16, key_.split("|", 1)[1] + "|R9.11", what_)
+    for k_ in sorted(sub9_.rules["R9.11"]["keys"]):
+        n16 += 1
+        rep.examined(R16, "R9.11|%s" % k_, sample={"rule": "R9.11", "instance": k_})
     if n16 < 20:
         raise CheckerError("R1.6: only %d lifted instances" % n16)
 
@@ -419,6 +429,24 @@ def run(prog, rep, tier):
     import printflush as _pf
     R17 = rep.rule("R1.7", "every printer body returns Ok only with its private buffer written out (path-sensitive, helpers summarised)")
     _pf.check(prog, rep, R17, floor=24)
+
+    # ------------------------------------------------------------ R1.8 no two same-typed arguments change places on the way to the callee
+    # The options reach the workers and the printers as long positional argument lists in which several
+    # parameters share a type (two FixedOffsets: the zone log lines are read in, the zone datetimes are
+    # printed in).  The compiler cannot tell them apart; the names can: a caller variable named like
+    # parameter B passed for parameter A *and* vice versa is an exchange.  Exact cross-overs only.
+    import argswap as _as_R18
+    R18 = rep.rule("R1.8", "no call passes two same-typed named arguments in the place of each other (whole program)")
+    sw_R18 = _as_R18.scan(prog)
+    for x_ in sw_R18:
+        rep.examined(R18, "%s->%s@%s" % (x_["caller"], x_["callee"], x_["line"]), sample=({k_: x_[k_] for k_ in ("caller", "callee", "same_typed_parameter_pairs", "swapped")} if x_["swapped"] or "processing_loop" in x_["callee"] else None))
+        for (i_, j_, a_, b_, t_) in x_["swapped"]:
+            if not (True):
+                continue
+            rep.violation(R18, "%s->%s|%s<->%s" % (x_["caller"], x_["callee"], a_, b_), "%s (line %s) calls %s with its `%s` in the place of parameter `%s` and its `%s` in the place of `%s` (both %s): the callee then works with exchanged values (instants read in the wrong zone shift one source against the others; ties are no longer ties)"
+                          % (x_["caller"], x_["line"], x_["callee"].split("::")[-1], b_, a_, a_, b_, t_))
+    if len(sw_R18) < 50:
+        raise CheckerError("R1.8: only %d calls with same-typed parameter pairs found" % len(sw_R18))
 
     return rep.finish(
         "Static necessary-condition check of the merge: the selection is Iterator::min_by (first minimum) directly over a BTreeMap keyed by PathId "
